@@ -91,6 +91,18 @@ pub fn hash_ops_allocs<V: Variant>(bytes: &[u8], other: &[u8]) -> (u64, &'static
         let (_, n) = armed(|| <V::Hash as FuzzyHashType>::from_str_bytes(&text[..text.len() - 1], m));
         note(n, "from_str_bytes (wrong length)");
     }
+    let lower_text: Vec<u8> = text.iter().enumerate().map(|(i, c)| if i >= 2 { c.to_ascii_lowercase() } else { *c }).collect();
+    let mixed_text: Vec<u8> = text.iter().enumerate().map(|(i, c)| if i >= 2 && i % 3 == 0 { c.to_ascii_lowercase() } else { *c }).collect();
+    for t in [&lower_text, &mixed_text] {
+        let (_, n) = armed(|| <V::Hash as FuzzyHashType>::from_str_bytes(t, None));
+        note(n, "from_str_bytes (accepting, lower/mixed case)");
+        let (_, n) = armed(|| <V::Hash as FuzzyHashType>::from_str_bytes(&t[2..], None));
+        note(n, "from_str_bytes (accepting, lower/mixed case, no prefix)");
+        if let Ok(ts) = std::str::from_utf8(t) {
+            let (_, n) = armed(|| ts.parse::<V::Hash>());
+            note(n, "FromStr (lower/mixed case)");
+        }
+    }
     let mut bad = text.clone();
     for pos in [0usize, 2, 2 + V::CK * 2, V::STRLEN - 1] {
         bad[pos] = b'g';
